@@ -65,6 +65,8 @@ class Session(object):
 
     def apply(self, act):
         """returns result class string"""
+        if getattr(self, 'dead', False):
+            return 'Unsupported'
         try:
             fn = getattr(self, 'do_' + act['a'])
         except AttributeError:
@@ -75,6 +77,8 @@ class Session(object):
         except Exception as e:  # pylint: disable=broad-except
             if not _in_library(sys.exc_info()[2]):
                 raise
+            if act['a'] == 'Reopen':
+                self.dead = True   # no usable object after a failed write/close/open cycle
             return exc_class(e)
 
     # -- actions ------------------------------------------------------------
